@@ -306,12 +306,6 @@ def r4(repo, res):
     res.ob("C17.R4", mn, tar[0] if tar else mn, suffix_w == ".tar.gz" and readers_ok,
            expected="archive written as <debug>.tar.gz and recognised by that suffix in detect_genome and _load_dump",
            found=f"writer suffix {suffix_w}; readers test '.tar.gz': {readers_ok}", key="archive-suffix")
-    # genome marker content: writer prints gene.genome, reader returns it as the genome
-    wr = [c_ for c_ in calls_in(wf) if call_name(c_) == "print" and c_.args]
-    res.ob("C17.R4", wf, wr[0] if wr else wf, bool(wr) and ast.unparse(wr[0].args[0]).endswith(".genome"),
-           expected="the marker file holds the gene's genome build", found=ast.unparse(wr[0]) if wr else "no print",
-           key="genome-marker-content")
-
 
 def r5(repo, res):
     """The replay goes through the same parameter/alias handling as the original run, and the restored neutral-depth
